@@ -630,6 +630,7 @@ pub fn run_injections(out_path: &str) {
     // only legal while the victim call itself only borrows its handle (clone, clone_arc)
     let adversary = ["drop1", "drop2", "clone_drop", "try_unwrap", "read_drop1", "clone", "clone_shared"];
     let mut w = std::io::BufWriter::new(std::fs::File::create(out_path).unwrap());
+    let mut progress = std::fs::File::create(format!("{}.progress", out_path)).unwrap();
     let mut scen = 0u64;
     for kind in kinds {
         for vop in victim_ops {
@@ -658,14 +659,29 @@ pub fn run_injections(out_path: &str) {
                         continue;
                     }
                     for k1 in 1..=3usize {
+                      // the adversary runs right before the victim's k-th count operation, or right after it
+                      for after in [false, true] {
                         for k2 in [0usize, 1, 2] {
                             // k2 = 0: one preemption; else a second one k2 events after the first
                             if k2 != 0 && !(vop == "clone" || vop == "clone_arc" || vop == "drop") {
                                 continue;
                             }
+                            if after && (k2 != 0 || k1 > 2) {
+                                continue;
+                            }
                             scen += 1;
                             alloc::reset();
                             ev::LOG.clear();
+                            // the process keeps a note of the scenario in progress: a fault on a released or
+                            // out-of-bounds address ends the process, and the stage names the scenario
+                            {
+                                use std::io::{Seek, Write as _};
+                                let _ = progress.seek(std::io::SeekFrom::Start(0));
+                                let _ = write!(progress, "{:<100}\n", format!("{} {} others={} adversary={} {} event {} (+{})", kind, vop, others, adv, if after { "after" } else { "at" }, k1, k2));
+                            }
+                            // every block of the scenario lives in a mapping of its own that becomes inaccessible on release
+                            alloc::GUARD.store(true, Ordering::SeqCst);
+                            crate::trace::INJECT_AFTER.with(|c| c.set(after));
                             alloc::track(true);
                             // ---- set-up (creation happens-before everything: not logged)
                             let mk = |v: u32| -> V {
@@ -897,6 +913,7 @@ pub fn run_injections(out_path: &str) {
                             }
                             mark(END, 0);
                             INJECT.with(|i| *i.borrow_mut() = None);
+                            crate::trace::INJECT_AFTER.with(|c| c.set(false));
                             // ---- the adversary releases what it still holds, then the victim
                             TID.with(|t| t.set(2));
                             while let Some(h) = theirs.pop() {
@@ -918,12 +935,14 @@ pub fn run_injections(out_path: &str) {
                             alloc::track(false);
                             let mut lines = convert(ev::drain(), shared, pid, vec![1, others], 1 + others, 2, scen);
                             if let Some(l0) = lines.get_mut(0) {
-                                l0["scenario"] = json!(format!("{} {} others={} adversary={} at event {} (+{})", kind, vop, others, adv, k1, k2));
+                                l0["scenario"] = json!(format!("{} {} others={} adversary={} {} event {} (+{})", kind, vop, others, adv, if after { "after" } else { "at" }, k1, k2));
                             }
                             for l in &lines {
                                 writeln!(w, "{}", l).unwrap();
                             }
+                            let _ = w.flush();
                         }
+                      }
                     }
                 }
             }
